@@ -19,7 +19,7 @@ ASSUMPTIONS = ['K12: whenever U256Muldiv::div(n,d) returns, it returns the floor
                'obligations below are therefore to be read as "no panic outside U256Muldiv::div"',
                'K1-K11: 256-bit add/sub/shift/compare/mul kernels meet their integer contracts (Kani, C02 kernel harnesses)',
                'MIR of the nightly compiler agrees with the SBF build on safe integer code']
-OUTSIDE = ['defects confined to the Knuth / native-u128 paths of U256Muldiv::div/div_loop outside the smoke-checked sub-domains (the early returns are decided), 'obligations listed as undischarged in this file']
+OUTSIDE = ['defects confined to the Knuth / native-u128 paths of U256Muldiv::div/div_loop outside the smoke-checked sub-domains (the early returns are decided)', 'obligations listed as undischarged in this file']
 EXPLANATION = 'each feasible MIR path of compute_swap (callee deltas replaced by specs proved equivalent to their MIR) yields obligations (a)-(f) of DESIGN §6 C02'
 
 MINP, MAXP = SP.MINP, SP.MAXP
